@@ -30,7 +30,7 @@ EXTENDS Naturals, Sequences, FiniteSets, TLC, Json, CSV, IOUtils
 
 CONSTANTS InPlaceMutation, ModelReused, DeadlineOnProcessClock, AgeLimit, MaxAge
 
-\* the 8 request kinds replayed on the implementation (harness/checks/c18.py: REQUESTS)
+\* the request kinds replayed on the implementation (harness/checks/c18.py: requests)
 ReqTable ==
   << [arch |-> "zen1", isa |-> "x86",     rmw |-> FALSE, opt |-> ""],       \* memory-composed loads
      [arch |-> "zen4", isa |-> "x86",     rmw |-> FALSE, opt |-> ""],
@@ -39,7 +39,14 @@ ReqTable ==
      [arch |-> "zen1", isa |-> "x86",     rmw |-> FALSE, opt |-> "fixed"],
      [arch |-> "zen4", isa |-> "x86",     rmw |-> FALSE, opt |-> "flags"],
      [arch |-> "zen1", isa |-> "x86",     rmw |-> FALSE, opt |-> ""],       \* unknown instructions
-     [arch |-> "zen1", isa |-> "x86",     rmw |-> TRUE,  opt |-> ""] >>     \* read-modify-write memory forms
+     [arch |-> "zen1", isa |-> "x86",     rmw |-> TRUE,  opt |-> ""],       \* read-modify-write memory forms
+     \* the other entry points and option paths of osaca.osaca.run
+     [arch |-> "zen1", isa |-> "x86",     rmw |-> FALSE, opt |-> "dbcheck"], \* --db-check: reads model and ISA database
+     [arch |-> "zen1", isa |-> "x86",     rmw |-> TRUE,  opt |-> "import"],  \* --import: adds entries to the model OBJECT it loaded
+     [arch |-> "zen1", isa |-> "x86",     rmw |-> FALSE, opt |-> "lines-a"], \* --lines 1-3
+     [arch |-> "zen1", isa |-> "x86",     rmw |-> FALSE, opt |-> "lines-b"], \* --lines 6-9 of the same file
+     [arch |-> "tx2",  isa |-> "aarch64", rmw |-> FALSE, opt |-> "long-a"],  \* >= 50 lines: multi-process LCD search
+     [arch |-> "tx2",  isa |-> "aarch64", rmw |-> FALSE, opt |-> "long-b"] >>
 NReq  == Len(ReqTable)
 Req   == 1..NReq
 Archs == { ReqTable[r].arch : r \in Req }
